@@ -309,6 +309,27 @@ func (p *Program) alternatives(v ssa.Value, depth int) []alt {
 			}
 		}
 		return out
+	case *ssa.Extract:
+		if c, ok := x.Tuple.(*ssa.Call); ok {
+			sc := c.Common().StaticCallee()
+			if sc != nil && p.transparent(sc) {
+				if o := sc.Origin(); o != nil {
+					sc = o
+				}
+				var out []alt
+				for _, ret := range returnsOf(sc) {
+					if x.Index >= len(ret.Results) {
+						continue
+					}
+					for _, a := range p.alternatives(p.res(ret, x.Index), depth+1) {
+						out = append(out, alt{Val: a.Val, Facts: append(p.facts(ret), a.Facts...), Pos: ret})
+					}
+				}
+				if len(out) > 0 {
+					return out
+				}
+			}
+		}
 	case *ssa.Call:
 		sc := x.Common().StaticCallee()
 		if sc != nil && p.transparent(sc) && sc.Signature.Results().Len() == 1 {
